@@ -528,7 +528,7 @@ def gen_held_case(rng, maxlen):
 
 
 def generate(rng, tier):
-    n, maxlen = (2500, 16) if tier == "quick" else (40000, 40)
+    n, maxlen = (2500, 16) if tier == "quick" else (24000, 40)
     for i in range(n):
         if i % 3 == 2:
             yield gen_held_case(rng, maxlen)
@@ -1061,7 +1061,8 @@ def oracle(case, trace):
             touched = {x for x in op[2:4] if isinstance(x, str)} if k == "rename" else {op[2]}
         elif ok and k == "delLayer":
             touched = {g for l in layb if l[0] == op[1] for g in l[1]}   # the property says nothing here
-        elif released is not None and not released.disabled:
+        elif released is not None:
+            # whatever was queued while the layer was not disabled (a release on a disabled layer drops it all)
             touched = {x for nt in released.notes for x in nt[1:]}
 
         # the order never gains duplicates ---------------------------------------------------------
